@@ -5,7 +5,6 @@ import (
 	"fmt"
 	"strings"
 
-	"github.com/teivah/majorana/common/latency"
 	"github.com/teivah/majorana/risc"
 )
 
@@ -48,25 +47,45 @@ func writesRegister(t risc.InstructionType) bool {
 	return true
 }
 
+// The documented latency table, kept here as an independent copy (README /
+// common/latency: Apple M1 figures; risc.go: loads take 50 execute cycles,
+// everything else 1).
+const (
+	docMemoryAccess   = 18 + 291
+	docRegisterAccess = 1
+	docDecode         = 1
+)
+
+func docExecuteCycles(t risc.InstructionType) int {
+	switch t {
+	case risc.Lb, risc.Lh, risc.Lw:
+		return 50
+	}
+	return 1
+}
+
+func isLoad(t risc.InstructionType) bool  { return t == risc.Lb || t == risc.Lh || t == risc.Lw }
+func isStore(t risc.InstructionType) bool { return t == risc.Sb || t == risc.Sh || t == risc.Sw }
+
 // mvp1Model computes the documented MVP-1 cycle count from the reference trace.
 func mvp1Model(app risc.Application, ref *refResult) int {
 	total := 0
 	for i, pc := range ref.PCs {
 		t := app.Instructions[pc/4].InstructionType()
-		total += latency.MemoryAccess // fetch
-		total += 1                    // decode
-		if t.IsMemoryRead() {
-			total += latency.MemoryAccess
+		total += docMemoryAccess // fetch
+		total += docDecode       // decode
+		if isLoad(t) {
+			total += docMemoryAccess
 		}
-		total += t.Cycles()
+		total += docExecuteCycles(t)
 		if t == risc.Ret && i == len(ref.PCs)-1 {
 			break
 		}
 		switch {
-		case t.IsMemoryWrite():
-			total += latency.MemoryAccess
+		case isStore(t):
+			total += docMemoryAccess
 		case writesRegister(t):
-			total += latency.RegisterAccess
+			total += docRegisterAccess
 		}
 	}
 	return total
@@ -253,7 +272,7 @@ func c12Run(c *RunCtx) {
 	}
 	c.AddExtra("programs", float64(progs))
 	c.Sum.Rule = "PX: every program of the C01 general set up to length 2 (thorough: plus every length-3 program over the core alphabet) x 6 initial states x 33 configurations; MVP-1 exact against the latency model computed from the reference trace, MVP-2 <= MVP-1, cycles > 0 and >= ceil(n/width) everywhere, and equal cycles for every pair of initial states with identical reference pc and address sequences; non-trivial = distinct programs for which at least one such pair of initial states exists"
-	c.Assume("the latency table is common/latency plus InstructionType.Cycles(); an instruction that produces a register result pays the register write-back even when rd is zero")
+	c.Assume("the latency table is an independent copy of the documented one (memory 309, register 1, decode 1, loads 50 execute cycles, others 1); an instruction that produces a register result pays the register write-back even when rd is zero")
 	c.Assume("only executions whose architectural result equals the reference take part (wrong results are C01's)")
 }
 
@@ -283,6 +302,24 @@ func init() {
 			Shards: func(tier string) int { return 64 },
 			Run: func(c *RunCtx) {
 				s2 := *s
+				if name == "C07" {
+					two, one := initsByID("pos", "neg"), initsByID("pos")
+					s2.InitsFor = func(p pxProg) []*pxInit {
+						if p.Tag == "memory" || p.Tag == "sweep" {
+							return one
+						}
+						return two
+					}
+				}
+				if name == "C04" && !c.Thorough() {
+					two, one := initsByID("pos", "neg"), initsByID("pos")
+					s2.InitsFor = func(p pxProg) []*pxInit {
+						if p.Tag == "deps-core" {
+							return one
+						}
+						return two
+					}
+				}
 				if c.Thorough() && name == "C04" {
 					two, one := initsByID("pos", "neg"), initsByID("pos")
 					s2.InitsFor = func(p pxProg) []*pxInit {
